@@ -31,9 +31,9 @@ def MB : Nat := 1024 * 1024
     through `self.__class__()` -/
 def defaultBufBytes : Nat := 4 * MB
 
-/-- dtype tags used by the harness: 0=f8 1=i8 2=i4 3=i2 4=f4 (item sizes checked at import) -/
+/-- dtype tags used by the harness: 0=f8 1=i8 2=i4 3=i2 4=f4 5=bool (item sizes checked at import) -/
 def itemsize : Nat → Nat
-  | 0 => 8 | 1 => 8 | 2 => 4 | 3 => 2 | 4 => 4 | _ => 8
+  | 0 => 8 | 1 => 8 | 2 => 4 | 3 => 2 | 4 => 4 | 5 => 1 | _ => 8
 
 /-- one `_data` ndarray -/
 structure Buf where
@@ -262,6 +262,74 @@ def opNew (f : Elem → Elem) (σ : State) (t : Nat) : Option State :=
   if s.ranges.isEmpty then none
   else some ((opLoop f σ' c.buf s.buf c.ranges s.ranges).addSeq c)
 
+
+inductive Err where
+  | index      -- IndexError
+  | value      -- ValueError
+  | stopIter   -- StopIteration (arithmetic on a sequence without elements)
+  | bad        -- ill-formed operation (unknown sequence id, wrong element sizes): not generated
+  deriving Repr, DecidableEq, Inhabited
+
+/-! ### operators whose right operand is another ArraySequence, unary operators
+    (correspondence + oracle only: no theorem yet) -/
+
+/-- elementwise `x ∘ y`; `code` 0: `+`, 1: `*`, 2: `-`, ≥3: `<` (NumPy bool shown as 0/1) -/
+def binop (code : Nat) (x y : Int) : Int :=
+  match code with
+  | 0 => x + y
+  | 1 => x * y
+  | 2 => x - y
+  | _ => if x < y then 1 else 0
+
+def arith2 (code : Nat) (a b : Elem) : Elem := List.zipWith (List.zipWith (binop code)) a b
+
+/-- dtype tag of NumPy `bool` (result of a comparison) -/
+def boolTag : Nat := 5
+
+/-- the loop of `_op` with an ArraySequence operand, array_sequence.py:500-519: destination range
+    in buffer `db`, left operand range in `sb` (ranges of `self`), right operand range in `vb`
+    (ranges of `value`); every iteration reads the CURRENT buffers (operands may alias) -/
+def opLoop2 (code : Nat) (σ : State) (db sb vb : Nat) :
+    List (Nat × Nat) → List (Nat × Nat) → List (Nat × Nat) → State
+  | d :: ds, s :: ss, v :: vs =>
+      opLoop2 code (setRange σ db d
+        (arith2 code ((σ.bufAt sb).slice s.1 s.2) ((σ.bufAt vb).slice v.1 v.2))) db sb vb ds ss vs
+  | _, _, _ => σ
+
+/-- `_check_shape`, array_sequence.py:179-194 (common shapes are equal within a history) -/
+def checkShape (rs vs : List (Nat × Nat)) : Bool :=
+  rs.length == vs.length && (rs.map (·.2)).sum == (vs.map (·.2)).sum
+
+/-- element-by-element equal row counts (otherwise NumPy broadcasts or raises part-way: not generated) -/
+def lensMatch (rs vs : List (Nat × Nat)) : Bool := rs.map (·.2) == vs.map (·.2)
+
+/-- `seq op= other` with `other` an ArraySequence (arithmetic codes 0-2) -/
+def iopSeq (code : Nat) (σ : State) (t v : Nat) : Except Err State :=
+  let s := σ.seqAt t
+  let o := σ.seqAt v
+  if !checkShape s.ranges o.ranges then .error .value
+  else if s.ranges.isEmpty then .error .stopIter
+  else if !lensMatch s.ranges o.ranges || code ≥ 3 then .error .bad
+  else .ok (opLoop2 code σ s.buf s.buf o.buf s.ranges s.ranges o.ranges)
+
+/-- `seq op other` with `other` an ArraySequence: the result is `self.copy()` filled from the ranges
+    of `self` (NOT of the compacted copy) and of `other`; a comparison gives a bool buffer -/
+def opSeq (code : Nat) (σ : State) (t v : Nat) : Except Err State :=
+  let s := σ.seqAt t
+  let o := σ.seqAt v
+  let (σ', c) := copySeq σ t
+  if !checkShape s.ranges o.ranges then .error .value
+  else if s.ranges.isEmpty then .error .stopIter
+  else if !lensMatch s.ranges o.ranges then .error .bad
+  else
+    let σ1 := opLoop2 code σ' c.buf s.buf o.buf c.ranges s.ranges o.ranges
+    let σ2 := if code ≥ 3 then σ1.setBuf c.buf { σ1.bufAt c.buf with dt := boolTag } else σ1
+    .ok (σ2.addSeq c)
+
+/-- unary operators; `code` 0: `-seq`, otherwise `abs(seq)` -/
+def unary (code : Nat) (el : Elem) : Elem :=
+  el.map (fun row => row.map (fun x => if code = 0 then -x else (x.natAbs : Int)))
+
 /-! ### the ORIGINAL (pinned) logic of the two repaired defects -/
 
 /-- pinned `append`: no `_own_data()` — a view grows inside the shared buffer -/
@@ -302,13 +370,9 @@ inductive Op where
   | iop (t : Nat) (code : Nat) (k : Int)                   -- `s += k` / `s *= k` / `s -= k`
   | op (t : Nat) (code : Nat) (k : Int)                    -- `s + k` …
   | concat (ts : List Nat) (w : Nat)                       -- `concatenate([..], axis=0)`
-  deriving Repr, DecidableEq, Inhabited
-
-inductive Err where
-  | index      -- IndexError
-  | value      -- ValueError
-  | stopIter   -- StopIteration (arithmetic on a sequence without elements)
-  | bad        -- ill-formed operation (unknown sequence id, wrong element sizes): not generated
+  | iopSeq (t v : Nat) (code : Nat)                        -- `s += other` / `*=` / `-=`, other an ArraySequence
+  | opSeq (t v : Nat) (code : Nat)                         -- `s + other` / `*` / `-` / `<`
+  | unary (t : Nat) (code : Nat)                           -- `-s` / `abs(s)`
   deriving Repr, DecidableEq, Inhabited
 
 /-- `s.extend(u)` with `u` an ArraySequence: `len(u)`, `u[0]` and iteration read `u`'s arrays;
@@ -383,6 +447,16 @@ def step (σ : State) : Op → Except Err State
   | .op t code k =>
       if t < σ.seqs.length then
         match opNew (arith code k) σ t with
+        | some σ' => .ok σ'
+        | none => .error .stopIter
+      else .error .bad
+  | .iopSeq t v code =>
+      if t < σ.seqs.length ∧ v < σ.seqs.length then iopSeq code σ t v else .error .bad
+  | .opSeq t v code =>
+      if t < σ.seqs.length ∧ v < σ.seqs.length then opSeq code σ t v else .error .bad
+  | .unary t code =>
+      if t < σ.seqs.length then
+        match opNew (unary code) σ t with
         | some σ' => .ok σ'
         | none => .error .stopIter
       else .error .bad
